@@ -2,6 +2,8 @@ import Pxv.Lemmas.Order
 import Pxv.Lemmas.Stalemate
 import Pxv.Lemmas.StalemateInClass
 import Pxv.Lemmas.Complex
+import Pxv.Lemmas.PassesSilent
+import Pxv.Model.BorrowCheck
 /-!
 C02 — rule-abiding blueprints are accepted: the ordering step never gets stuck.
 
@@ -514,5 +516,92 @@ example : uncontended (exX false false) = false ∧ (complexCheck (exX false fal
 example : (complexCheck (exX true false)).diags = [] ∧
     (complexCheck (exX true false)).g.edges.filter (fun e => !((exX true false).edges.contains e)) = [⟨0, 5, .shared⟩, ⟨5, 2, .move⟩] ∧
     (complexCheck (exX true false)).fuelOut = false := by decide
+
+/-! ### the whole borrow checker on rule-abiding call graphs -/
+
+theorem uncontended_of_mwbQuiet {g : Graph} (h : mwbQuiet g = true) : uncontended g = true := by
+  unfold uncontended
+  rw [List.all_eq_true]
+  intro e he
+  have hs := mwbQuiet_spec h he
+  cases hk : e.kind with
+  | move =>
+    rcases hs.2 hk with hc | hnb
+    · simp [hc]
+    · have : g.edges.all (fun e' => !(e'.src == e.src && (e'.kind == .shared || e'.kind == .excl)) &&
+          (e'.kind == .before || !(lookup (captured g) e'.src).contains e.src)) = true := by
+        rw [List.all_eq_true]
+        intro e' he'
+        have h1 : ¬ (e'.src = e.src ∧ (e'.kind = .shared ∨ e'.kind = .excl)) :=
+          fun hh => hnb (Or.inl ⟨e', he', hh.2, hh.1⟩)
+        have h2 : e.src ∉ lookup (captured g) e'.src := fun hh => hnb (Or.inr ⟨e', he', hh⟩)
+        simp only [Bool.and_eq_true, Bool.not_eq_true', Bool.or_eq_true, beq_iff_eq, Bool.and_eq_false_iff,
+          Bool.or_eq_false_iff, beq_eq_false_iff_ne, ne_eq]
+        refine ⟨?_, Or.inr (by simpa using h2)⟩
+        by_cases hsrc : e'.src = e.src
+        · right
+          exact ⟨fun hk' => h1 ⟨hsrc, Or.inl hk'⟩, fun hk' => h1 ⟨hsrc, Or.inr hk'⟩⟩
+        · exact Or.inl hsrc
+      rw [this]; simp
+  | shared => simp
+  | excl => simp
+  | before => simp
+
+/-- **C02 — the borrow checker, all four passes, on rule-abiding call graphs**: take any acyclic, well-formed call graph in
+    which (1) no value has two by-value consumers on one control-flow path unless it is Copy or a reference, (2) there is no
+    `&mut` input and whatever is taken by value is Copy or borrowed by nobody (neither directly nor through a value that
+    holds a reference to it; stated for both capture bookkeepings of the compiler, `captured` and `holds`). Then
+    `multiple_consumers`, `move_while_borrowed`, `complex_borrow_check` and `ordering_stalemates` (each mirrored statement
+    by statement and compared with the real pass on every call graph of every run) all return the graph untouched, none
+    reports a diagnostic, and the ordering step that follows finds a complete legal order: such an application is never
+    rejected, never asked to restructure, and never sees a clone it did not ask for. For every size and shape of graph. -/
+theorem inClass_borrowCheck_identity {g : Graph} {τ : List Nat} (hwf : g.wellFormed = true) (hτ : isTopo g τ = true)
+    (hmc : McQuiet g) (hq : mwbQuiet g = true) (hnc : noConflict g = true) :
+    borrowCheck g = some g ∧ ∃ σ, order g = some σ ∧ isRun g σ = true ∧ σ.length = g.size := by
+  have hord := order_never_stuck hnc hwf hτ
+  refine ⟨?_, hord⟩
+  obtain ⟨σ, hσ, _, _⟩ := hord
+  have hfs : findStalemate g [] = [] := by
+    apply Classical.byContradiction
+    intro hne
+    rw [stalemate_means_stuck hne] at hσ
+    cases hσ
+  have hos : resolveStalemates g = (g, []) := by
+    unfold resolveStalemates resolveFuel
+    rw [show 2 * g.edges.length + g.size + 1 = (2 * g.edges.length + g.size) + 1 from rfl]
+    simp only [resolveLoop, hfs]
+  have hcx := complex_pass_silent_when_uncontended (uncontended_of_mwbQuiet hq)
+  unfold borrowCheck
+  simp only [multipleConsumers_quiet hmc, moveWhileBorrowed_quiet hq, hcx.1, hcx.2, hos, List.isEmpty_nil, Bool.and_self,
+    Bool.not_true, Bool.false_eq_true, if_false]
+
+-- non-vacuity: a handler (4) that borrows a singleton (0), takes a request-scoped value (2) built from a borrow of it, and a
+-- Copy value (1) that is both taken by value twice and borrowed
+def exInClass : Graph :=
+  { nodes := [{}, { copy := true }, {}, {}, {}],
+    edges := [⟨0, 2, .shared⟩, ⟨1, 2, .move⟩, ⟨1, 3, .shared⟩, ⟨1, 4, .move⟩, ⟨0, 4, .shared⟩, ⟨2, 4, .move⟩, ⟨3, 4, .move⟩] }
+example : exInClass.wellFormed = true ∧ isTopo exInClass [0, 1, 2, 3, 4] = true ∧ mwbQuiet exInClass = true ∧
+    noConflict exInClass = true := by decide
+example : McQuiet exInClass := by
+  intro n
+  by_cases h0 : n = 0
+  · subst h0; left; decide
+  by_cases h1 : n = 1
+  · subst h1; right; left; rfl
+  by_cases h2 : n = 2
+  · subst h2; left; decide
+  by_cases h3 : n = 3
+  · subst h3; left; decide
+  by_cases h4 : n = 4
+  · subst h4; left; decide
+  left
+  have : exInClass.consumers n = [] := by
+    unfold Graph.consumers Graph.outEdges exInClass
+    rw [List.map_eq_nil_iff, List.filter_eq_nil_iff]
+    intro e he
+    simp only [List.mem_filter, List.mem_cons, List.not_mem_nil, or_false] at he
+    rcases he.1 with rfl | rfl | rfl | rfl | rfl | rfl | rfl <;> simp_all
+  rw [this]; decide
+example : borrowCheck exInClass = some exInClass := by decide
 
 end Pxv.CG
